@@ -7,7 +7,7 @@ from vlib import boot
 from vlib.engine import Outcome
 
 PROPERTY = 'C13'
-RULE = ('Real UDPCL agents over an in-memory datagram network: one or two senders queue 1-3 real (reference-encoded) '
+RULE = ('Real UDPCL agents over an in-memory datagram network: one to three senders (two hosts, two of them sharing one address with different source ports) queue 1-3 real (reference-encoded) '
         'bundles through the send_bundle_data D-Bus method with mtu_default from {None, 64, 65, 100, 256, 300, 1200, 9000} or any value in 24..330 (every one of them enumerated) '
         'and bundle lengths on CBOR head boundaries and at mtu-60..mtu+100; the paced transmit path runs on the virtual '
         'clock and every datagram handed to sendmsg is captured.  The captured datagrams then arrive at a real receiver '
@@ -54,6 +54,15 @@ def enumerate_cases(tier):
     for mtu in range(24, 331) if tier != 'quick' else itertools.chain(range(24, 80), range(250, 300)):
         for plen in (3 * mtu + 7, 700):
             yield {'mtu': mtu, 'sends': [{'plen': plen, 'seed': 3, 'peer': 1}], 'ops': [['d', 1, 0]], 'queries': ['pop'], 'poll': False}
+    # two agents behind one address (different source ports), both numbering their first transfer 0, interleaved
+    for perm in itertools.permutations(range(4)):
+        ops = []
+        remaining = list(range(4))
+        for choice in perm:
+            ops.append(['d', remaining.index(choice), 0])
+            remaining.remove(choice)
+        yield {'mtu': 100, 'sends': [{'plen': 130, 'seed': 1, 'peer': 1}, {'plen': 140, 'seed': 2, 'peer': 3}], 'ops': ops,
+               'queries': ['pop', 'pop'], 'poll': False}
     for mtu, plen in combos:
         base = {'mtu': mtu, 'sends': [{'plen': plen, 'seed': 3, 'peer': 1}], 'queries': ['queue', 'pop'], 'poll': False}
         # the number of segments is not known here: permutations are expressed as removal indices
@@ -69,6 +78,8 @@ def enumerate_cases(tier):
 def pinned_cases():
     yield 'three-segments-reversed', {'mtu': 100, 'sends': [{'plen': 150, 'seed': 1, 'peer': 1}], 'ops': [['d', 2, 0], ['d', 1, 0], ['d', 0, 0]],
                                       'queries': ['queue', 'pop', 'pop-twice', 'pop-unknown'], 'poll': True}
+    yield 'same-host-two-ports-same-id', {'mtu': 60, 'sends': [{'plen': 150, 'seed': 1, 'peer': 1}, {'plen': 160, 'seed': 2, 'peer': 3}],
+                                          'ops': [['d', 0, 0], ['d', 4, 0], ['d', 0, 0], ['d', 3, 0], ['d', 1, 0]], 'queries': ['pop'], 'poll': False}
     yield 'two-peers-same-id', {'mtu': 100, 'sends': [{'plen': 150, 'seed': 1, 'peer': 1}, {'plen': 160, 'seed': 2, 'peer': 2}],
                                 'ops': [['d', 3, 0], ['c', 0, 0], ['r', 0, 0], ['p', 1, 4]], 'queries': [], 'poll': False}
 
